@@ -31,6 +31,8 @@ pub struct PipeOpts {
     pub racing_stop: bool,
     pub stalls: bool,
     pub metrics_reads: bool,
+    /// Unsubscribe ops on prelude / run-time subscribers from client threads
+    pub unsubs: bool,
     /// dispatches after the stop (each thread keeps going)
     pub min_threads: usize,
 }
@@ -57,6 +59,7 @@ impl PipeOpts {
             racing_stop: false,
             stalls: true,
             metrics_reads: false,
+            unsubs: false,
             min_threads: 1,
         }
     }
@@ -99,12 +102,14 @@ pub fn gen_pipeline(raw: &Raw, o: &PipeOpts) -> Scenario {
         }
     }
     let nsub = range(knob(raw, 5), o.prelude_subs);
+    let mut all_subs: Vec<SubId> = vec![];
     for i in 0..nsub {
         let sub = b.sub(SubKind::Direct);
         if o.callback_reads && (knob(raw, 9) >> i) & 1 == 0 {
             b.sub_mut(sub).reads_state = true;
         }
         b.s.prelude.push(Op::Subscribe { store: s, sub });
+        all_subs.push(sub);
     }
     let racing_stop = o.racing_stop && knob(raw, 6) % 3 == 0;
     let mut added = 0;
@@ -169,8 +174,10 @@ pub fn gen_pipeline(raw: &Raw, o: &PipeOpts) -> Scenario {
                 25 if o.runtime_add && added < 3 => {
                     added += 1;
                     let sub = b.sub(SubKind::Direct);
+                    all_subs.push(sub);
                     Op::Subscribe { store: s, sub }
                 }
+                29 | 30 if o.unsubs && !all_subs.is_empty() => Op::Unsubscribe { store: s, sub: all_subs[pick(r.a, all_subs.len())] },
                 26 if o.metrics_reads => Op::GetMetrics { store: s },
                 27 | 28 if o.stalls => Op::Stall(stall_of(r.a)),
                 _ if o.readers => Op::GetState { store: s },
